@@ -35,6 +35,7 @@ type Solver struct {
 	Time     time.Duration
 	Errors   int
 	Hangs    int
+	UFUnsat  int // cvc5 "unsat" answers discarded because the query contains an uninterpreted function
 	log      io.Writer
 	dead     bool
 }
@@ -48,7 +49,7 @@ func solverArgv(name string, timeoutMs int) []string {
 	case "z3new":
 		return []string{"z3-new", "-in", fmt.Sprintf("-t:%d", timeoutMs)}
 	case "cvc5":
-		return []string{"cvc5", "--incremental", "--strings-exp", "--produce-models", "--strings-model-max-len=1000000", "--lang=smt2", fmt.Sprintf("--tlimit-per=%d", timeoutMs)}
+		return []string{"cvc5", "--incremental", "--strings-exp", "--produce-models", "--strings-model-max-len=1000000", "--no-strings-regexp-inclusion", "--lang=smt2", fmt.Sprintf("--tlimit-per=%d", timeoutMs)}
 	}
 	panic("unknown solver " + name)
 }
@@ -108,10 +109,44 @@ func (s *Solver) send(txt string) {
 	}
 }
 
+// SelfTest issues canned queries with known answers (regular-expression membership shapes that
+// cvc5 1.0.3 gets wrong without --no-strings-regexp-inclusion, plus one unsat control) and
+// returns an error on any wrong answer. Run once per back end at start-up: a back end that
+// fails is not used.
+func (p *SolverPool) SelfTest() error {
+	s := p.Get()
+	defer p.Put(s)
+	cases := []struct {
+		smt  string
+		want string
+	}{
+		{`(declare-fun st_p () String)(push 1)(assert (not (str.in_re st_p (re.* (re.range "b" "c")))))(assert (str.in_re st_p (re.* (re.range "a" "d"))))(check-sat)(pop 1)`, "sat"},
+		{`(declare-fun st_q () String)(declare-fun st_b () Bool)(push 1)(assert (or (not (str.in_re st_q (re.* (re.range "a" "z")))) st_b))(assert (not st_b))(assert (str.in_re st_q (re.* (re.range "\u{0}" "\u{7f}"))))(check-sat)(pop 1)`, "sat"},
+		{`(declare-fun st_r () String)(push 1)(assert (str.in_re st_r (re.+ (re.range "b" "c"))))(assert (= (str.len st_r) 0))(check-sat)(pop 1)`, "unsat"},
+	}
+	for _, c := range cases {
+		s.send(c.smt + "\n")
+		got, err := s.readAnswer()
+		if err != nil {
+			return fmt.Errorf("solver %s self-test: %v", s.Name, err)
+		}
+		if got != c.want {
+			return fmt.Errorf("solver %s self-test: answered %s, expected %s on %s", s.Name, got, c.want, c.smt)
+		}
+	}
+	return nil
+}
+
 // blobVars: string variables whose model value is never read (only their length)
 var blobVars sync.Map
 
 func MarkBlob(name string) { blobVars.Store(name, true) }
+
+// cvc5 1.0.3 runs with --no-strings-regexp-inclusion: its regular-expression inclusion inference
+// answers unsat on satisfiable queries such as
+//   (not (str.in_re p (re.* (re.range "b" "c")))) (str.in_re p (re.* (re.range "a" "d")))
+// (p = "a"; z3 4.8.12 and 5.1 say sat). Found when a seeded change (C13_D) produced a path whose
+// model query cvc5 declared unsat; every cvc5-first obligation was re-run after the change.
 
 func (s *Solver) readLine() (string, error) {
 	type res struct {
@@ -153,6 +188,18 @@ func (s *Solver) declare(b *strings.Builder, ts []*Term) {
 			fmt.Fprintf(b, "(declare-const %s %s)\n", quoteSym(d.Name), sortStr(d.Kind, d.W))
 		}
 	}
+}
+
+// hasUF reports whether a query mentions a declared (uninterpreted) function.
+func hasUF(ts []*Term) bool {
+	for _, t := range ts {
+		for _, v := range t.Vars() {
+			if strings.HasPrefix(v, "\x00") {
+				return true
+			}
+		}
+	}
+	return false
 }
 
 var GlobalQueries, GlobalSolverNanos int64
